@@ -244,6 +244,19 @@ func c08Run(c *core.Ctx) {
 		}
 	}
 
+	// --- very long tokens (longer than the default limit): strings, keys, numbers
+	long := strings.Repeat("x", 5000)
+	for _, d := range []string{
+		`["` + long + `",1]`, `{"` + long + `":[1,2]}`, `{"k":"` + long + `","j":{"a":[true]}}`,
+		`[` + strings.Repeat("7", 4000) + `.5e10,"a"]`, `[1,"a` + strings.Repeat(`\n`, 2000) + `b",null]`,
+		`{"a":[` + strings.Repeat(`"s",`, 1200) + `"s"]}`,
+	} {
+		if !c.Next() || c.Expired() {
+			continue
+		}
+		runDoc([]byte(d), "long-tokens", 13)
+	}
+
 	// --- the exception itself
 	svg := &core.Case{Kind: "c08svg"}
 	for _, d := range []string{`{"a":"<svg"}`, `["<svg>"]`, `{"<svg":1}`} {
